@@ -108,18 +108,22 @@ def undecodable(ty):
     return []
 
 
-def make_table(rnd, types, window=14, want_holes=True):
-    """a well-formed table (python description + per register value sets)"""
+SHAPES = [(1, 0), (0, 1), (1, 0, 1), (1, 1, 0), (0, 1, 1), (1, 0, 0)]     # populated / register-less areas, all adjacent
+
+
+def make_table(rnd, types, window=14, want_holes=True, shape=None):
+    """a well-formed table (python description + per register value sets).
+    shape: per area 1 = populated, 0 = without registers; areas of a shaped table are adjacent and writable"""
     be = rnd.randint(0, 1)
-    na = rnd.choice([1, 2, 2, 3])
+    na = rnd.choice([1, 2, 2, 3]) if shape is None else len(shape)
     # carve areas out of [1, window]
     pos = 1 + rnd.randint(0, 2)
     areas = []
     for i in range(na):
-        size = rnd.choice([1, 2, 3, 4, 5, 6])
+        size = rnd.choice([1, 2, 3, 4, 5, 6]) if shape is None else (rnd.choice([3, 4, 5]) if shape[i] else rnd.choice([1, 2]))
         if pos + size > window + 1:
             break
-        fl = rnd.random()
+        fl = rnd.random() if shape is None else 1.0
         rd, wr, hasw = 1, 1, 1
         if fl < 0.15:
             wr = 0            # read-only by flag
@@ -128,12 +132,14 @@ def make_table(rnd, types, window=14, want_holes=True):
         elif fl < 0.30:
             hasw = 0          # no write callback at all
         areas.append(area(pos, size, rd, wr, rnd.choice([0, 0, 0, 1]), hasw, rnd.choice([0, 0, 1])))
-        pos += size + (rnd.choice([0, 0, 1, 2]) if want_holes else 0)
+        pos += size + (rnd.choice([0, 0, 1, 2]) if want_holes and shape is None else 0)
     regs, info = [], []
-    for (base, size, rd, wr, skip, hasw, kind) in areas:
+    for ai, (base, size, rd, wr, skip, hasw, kind) in enumerate(areas):
         a = base
+        if shape is not None and not shape[ai]:
+            continue
         while a < base + size:
-            if rnd.random() < 0.25:
+            if rnd.random() < (0.25 if shape is None else 0.1):
                 a += 1          # gap between registers
                 continue
             ty = rnd.choice(types)
